@@ -3739,23 +3739,27 @@ def _fix_duplicate_from_imports(source: str) -> str:
         module_import_nodes = collections.defaultdict(list)
 
         for node in group:
-            module_import_aliases[node.module].update(
+            if any(alias.name == "*" for alias in node.names):
+                continue  # Starred imports cannot be merged with other imports
+            key = (node.module, node.level)
+            module_import_aliases[key].update(
                 (alias.name, alias.asname if alias.asname != alias.name else None)
                 for alias in node.names
             )
-            module_import_nodes[node.module].append(node)
+            module_import_nodes[key].append(node)
 
-        for module, import_nodes in module_import_nodes.items():
+        for key, import_nodes in module_import_nodes.items():
             if len(import_nodes) > 1:
+                module, level = key
                 replacements[import_nodes[0]] = ast.ImportFrom(
                     module=module,
                     names=[
                         ast.alias(name=name, asname=asname)
                         for name, asname in sorted(
-                            module_import_aliases[module],
+                            module_import_aliases[key],
                             key=lambda t: (t[0], t[1] is not None, t[1]),
                     )],
-                    level=import_nodes[0].level,
+                    level=level,
                 )
                 removals.update(import_nodes[1:])
 
